@@ -13,8 +13,9 @@ open Sf Sf.Meta Sf.C12Round
 def listEntries (h : MetaState) (loc : Nat) : List (Nat × List Byte) :=
   if (h.strings.flags &&& loc) ≠ 0 ∧ locationCount h.strings loc ≠ 0 then entriesOf h.strings loc else []
 
-/-- is the trailing LIST found again?  rf64_read_header does not skip the pad byte behind an odd number of audio bytes -/
-def trailerFound (h : MetaState) : Bool := !(h.cont = .rf64 && h.audio.length % 2 = 1)
+/-- is the trailing LIST found again?  Always, since the repair of KF-C12-RF64-ODD-PAD (rf64_read_header skips the pad byte behind an
+    odd number of audio bytes as wav_read_header does); the rule before the repair is `Sf.Meta.trailerFoundOld` -/
+def trailerFound (_h : MetaState) : Bool := true
 
 def normaliseRiffAny (h : MetaState) : Reopened :=
   { normaliseRiff h with
@@ -47,24 +48,12 @@ theorem meta_roundtrip_riff_any (period : Nat) (h : MetaState) (w : WithinRiffAn
   obtain ⟨he, hef, hl, hlf, hbext, hcart, hcues, hinst⟩ := w
   unfold reopenNow normaliseRiffAny normaliseRiff reopen
   have hs1 := list_back h SF_STR_LOCATE_START he hef
-  have hs2 : (if (h.strings.flags &&& SF_STR_LOCATE_END) ≠ 0 ∧ locationCount h.strings SF_STR_LOCATE_END ≠ 0 ∧
-                ¬ (h.cont = .rf64 ∧ h.audio.length % 2 = 1)
+  have hs2 : (if (h.strings.flags &&& SF_STR_LOCATE_END) ≠ 0 ∧ locationCount h.strings SF_STR_LOCATE_END ≠ 0
               then parseInfo (writeStrings h.strings SF_STR_LOCATE_END) else [])
              = (if trailerFound h then listEntries h SF_STR_LOCATE_END else []) := by
     have := list_back h SF_STR_LOCATE_END hl hlf
-    unfold trailerFound
-    by_cases hodd : h.cont = .rf64 ∧ h.audio.length % 2 = 1
-    · have e1 : (!(decide (h.cont = .rf64) && decide (h.audio.length % 2 = 1))) = false := by simp [hodd.1, hodd.2]
-      rw [e1]; simp [hodd]
-    · have e1 : (!(decide (h.cont = .rf64) && decide (h.audio.length % 2 = 1))) = true := by
-        simp only [Bool.not_eq_true', Bool.and_eq_false_imp, decide_eq_true_eq, decide_eq_false_iff_not]
-        intro a b; exact hodd ⟨a, b⟩
-      rw [e1, ← this]
-      by_cases hc : (h.strings.flags &&& SF_STR_LOCATE_END) ≠ 0 ∧ locationCount h.strings SF_STR_LOCATE_END ≠ 0
-      · simp [hc, hodd]
-      · have : ¬ ((h.strings.flags &&& SF_STR_LOCATE_END) ≠ 0 ∧ locationCount h.strings SF_STR_LOCATE_END ≠ 0 ∧
-            ¬ (h.cont = .rf64 ∧ h.audio.length % 2 = 1)) := fun x => hc ⟨x.1, x.2.1⟩
-        rw [if_neg this, if_neg hc]; simp
+    simp only [trailerFound, if_true]
+    exact this
   have hb : (h.bext.bind fun b => readBext (writeBext b)) = h.bext.map Bext.reread := by
     cases hbe : h.bext with
     | none => rfl
@@ -98,8 +87,14 @@ def lateHandle (c : Container) (audio : List Byte) : MetaState :=
   (step pn pv h4 (.setString 1 (ascii "New"))).2
 
 example : (reopenNow 22675 (lateHandle .wav [1, 2, 3])).strings = [(4, ascii "Artist"), (5, ascii "late"), (1, ascii "New")] ∧
-    (reopenNow 22675 (lateHandle .rf64 [1, 2, 3])).strings = [(4, ascii "Artist")] ∧
+    (reopenNow 22675 (lateHandle .rf64 [1, 2, 3])).strings = [(4, ascii "Artist"), (5, ascii "late"), (1, ascii "New")] ∧
     (reopenNow 22675 (lateHandle .rf64 [1, 2, 3, 4])).strings = [(4, ascii "Artist"), (5, ascii "late"), (1, ascii "New")] := by decide +kernel
+
+/-- the rule before the repair of KF-C12-RF64-ODD-PAD lost the strings set after an ODD number of audio bytes on RF64 (and only there):
+    the witness of the finding -/
+theorem rf64_odd_late_strings_lost_old_rule :
+    trailerFoundOld (lateHandle .rf64 [1, 2, 3]) = false ∧ trailerFoundOld (lateHandle .rf64 [1, 2, 3, 4]) = true ∧
+    trailerFoundOld (lateHandle .wav [1, 2, 3]) = true ∧ trailerFound (lateHandle .rf64 [1, 2, 3]) = true := by decide +kernel
 
 example : WithinRiffAny 22675 (lateHandle .wav [1, 2, 3]) := by
   have h1 : listEntries (lateHandle .wav [1, 2, 3]) SF_STR_LOCATE_START = [(4, ascii "Artist")] := by decide +kernel
